@@ -113,6 +113,36 @@ def globals_by_reference(repo: Repo):
     return None
 
 
+def _shares_only_extends(repo: Repo, copy_fn, st: ast.Assign, t: ast.AST) -> bool:
+    """``<ctx>.tag_namespace[k] = self.tag_namespace[k]`` where ``k`` is the variable of a ``for`` loop
+    over a parameter of ``copy`` whose default is a tuple of string constants, all "extends", and no
+    call of ``copy`` anywhere in the repository passes that parameter."""
+    if not (isinstance(t, ast.Subscript) and isinstance(t.value, ast.Attribute) and t.value.attr == "tag_namespace" and isinstance(t.slice, ast.Name)):
+        return False
+    k = t.slice.id
+    v = st.value
+    if not (isinstance(v, ast.Subscript) and text(v.value) == "self.tag_namespace" and isinstance(v.slice, ast.Name) and v.slice.id == k):
+        return False
+    loop = next((n for n in ast.walk(copy_fn.node) if isinstance(n, ast.For) and isinstance(n.target, ast.Name) and n.target.id == k and any(x is st for x in ast.walk(n))), None)
+    if loop is None or not isinstance(loop.iter, ast.Name):
+        return False
+    pname = loop.iter.id
+    a = copy_fn.node.args
+    allp = a.posonlyargs + a.args
+    defaults = dict(zip([x.arg for x in allp][len(allp) - len(a.defaults) :], a.defaults))
+    defaults.update({x.arg: d for x, d in zip(a.kwonlyargs, a.kw_defaults) if d is not None})
+    d = defaults.get(pname)
+    if not (isinstance(d, (ast.Tuple, ast.List)) and d.elts and all(isinstance(e, ast.Constant) and e.value == "extends" for e in d.elts)):
+        return False
+    if any(isinstance(x, ast.Name) and x.id == pname and isinstance(x.ctx, ast.Store) for x in ast.walk(copy_fn.node)):
+        return False
+    for f in repo.all_functions():
+        for c in ast.walk(f.node):
+            if isinstance(c, ast.Call) and callee_name(c) == "copy" and any(kw.arg == pname for kw in c.keywords):
+                return False
+    return True
+
+
 def run(repo: Repo) -> Result:
     res = Result(PID)
     res.rules = ["C15-COPY", "C15-NS", "C15-CTOR", "C15-FRESH", "C15-INIT", "C15-PARENT", "C15-DISABLED"]
@@ -258,6 +288,8 @@ def run(repo: Repo) -> Result:
                 continue  # the one sanctioned place for the parent's scope
             if tgt.endswith(".tag_namespace['extends']") and text(st.value) == "self.tag_namespace['extends']":
                 continue  # block bookkeeping of the inheritance chain, not variables
+            if _shares_only_extends(repo, copy_fn, st, t):
+                continue  # the same store, the key taken from a parameter that can only be "extends"
             leaks = _mentions_caller_state(st.value, "self")
             if leaks:
                 res.add("C15-CTOR", copy_fn.qual, f"block-post:{tgt}<-{leaks[0]}", f"the block-scope path of copy stores `{leaks[0]}` in `{tgt}`", copy_fn.file, st.lineno)
